@@ -69,13 +69,16 @@ pub struct Tracker
     /// the last operation was a successful build with this goal and nothing happened since
     pub last_ok_build : Option<Option<String>>,
     pub label : String,
+    /// contents that were at a target path or in the cache before some ruler invocation of this history and nowhere
+    /// after it (C08's violation), remembered so that C02 can say why a later rebuild was unnecessary
+    pub lost_by_ruler : BTreeSet<Vec<u8>>,
 }
 
 impl Tracker
 {
     pub fn new(label : &str, deterministic : bool) -> Tracker
     {
-        Tracker{scenario : None, ever_targets : BTreeSet::new(), ledger : vec![], deterministic : deterministic, last_ok_build : None, label : label.to_string()}
+        Tracker{scenario : None, ever_targets : BTreeSet::new(), ledger : vec![], deterministic : deterministic, last_ok_build : None, label : label.to_string(), lost_by_ruler : BTreeSet::new()}
     }
 }
 
@@ -103,7 +106,8 @@ fn contents_at_risk(disk : &Disk, ever_targets : &BTreeSet<String>) -> BTreeSet<
 /// Monitors after one invocation. `ops_so_far` includes the invocation's own op.
 pub fn monitor_invocation(out : &mut Out, tr : &mut Tracker, inv : &Invocation, op : &Op, coarse : bool, t0 : u64, ops_so_far : &[Op])
 {
-    let replay = || replay_json(&tr.label, coarse, t0, ops_so_far);
+    let label_for_replay = tr.label.clone();
+    let replay = || replay_json(&label_for_replay, coarse, t0, ops_so_far);
     // the properties that assume "distinct writes carry distinct modification times" are monitored whenever
     // that is actually the case on this disk (always under the fine clock)
     let mtimes_distinct = |d : &Disk| -> bool
@@ -181,6 +185,7 @@ pub fn monitor_invocation(out : &mut Out, tr : &mut Tracker, inv : &Invocation, 
         {
             if !after.contains(c)
             {
+                tr.lost_by_ruler.insert(c.clone());
                 out.violation("C08:content-lost", format!("content {:?} was at a target path or in the cache before the {} and is nowhere afterwards", String::from_utf8_lossy(c), if is_build { "build" } else { "clean" }), replay());
                 break;
             }
@@ -319,6 +324,11 @@ pub fn monitor_invocation(out : &mut Out, tr : &mut Tracker, inv : &Invocation, 
                             let contested = wanted.iter().filter(|w| *w == o).count() > 1;
                             if !available || contested { obliged = false; }
                             if !available { obliged_literally = false; }
+                            // the output is not in the cache because ruler itself lost it earlier in this history
+                            if !available && tr.lost_by_ruler.contains(o) && ran.contains_key(i)
+                            {
+                                out.violation("C02:rebuild-of-an-output-ruler-lost", format!("rule {:?} was already built from identical sources; its earlier output {:?} should have been in the cache but an earlier build or clean of this history dropped it, so the command ran again", r.targets, String::from_utf8_lossy(o)), replay());
+                            }
                         }
                         if obliged && ran.contains_key(i)
                         {
@@ -794,7 +804,7 @@ pub fn shortcut(ctx : &Ctx, out : &mut Out)
         }
     }
     let mut rng = Rng::new(ctx.seed).fork(18);
-    let n = if ctx.thorough { 3000 } else { 220 };
+    let n = if ctx.thorough { 3000 } else { 120 };
     for i in 0..n
     {
         let coarse = i % 2 == 0;
@@ -857,13 +867,25 @@ pub fn mixed_ops(r : &mut Rng) -> Vec<Op>
         if r.chance(2, 3) { ops.push(Op::Build(None)); }
     }
     ops.push(Op::Build(None));
+    // now and then: one target deleted while a leaf it reads goes back and forth, a build after every change (what
+    // was displaced in one build must still be recoverable two builds later)
+    if r.chance(1, 3)
+    {
+        let l = *r.pick(&leaves);
+        let t = r.pick(&names[..n_targets]).to_string();
+        let flip = |v : &str| if v == "1" { "2" } else { "1" };
+        let mut v = *r.pick(&vals);
+        ops.push(Op::Write(l.to_string(), v.as_bytes().to_vec())); ops.push(Op::Build(None));
+        ops.push(Op::Remove(t));
+        for _ in 0..4 { v = flip(v); ops.push(Op::Write(l.to_string(), v.as_bytes().to_vec())); ops.push(Op::Build(None)); }
+    }
     ops
 }
 
 pub fn mixed(ctx : &Ctx, out : &mut Out)
 {
     let mut rng = Rng::new(ctx.seed).fork(2020);
-    let n = if ctx.thorough { 3000 } else { 200 };
+    let n = if ctx.thorough { 3000 } else { 120 };
     for i in 0..n
     {
         let mut r = rng.fork(i as u64);
@@ -878,7 +900,7 @@ pub fn mixed(ctx : &Ctx, out : &mut Out)
 pub fn swap(ctx : &Ctx, out : &mut Out)
 {
     let mut rng = Rng::new(ctx.seed).fork(1818);
-    let n_swap = if ctx.thorough { 3000 } else { 200 };
+    let n_swap = if ctx.thorough { 3000 } else { 100 };
     for i in 0..n_swap
     {
         let coarse = i % 4 != 3;
